@@ -33,6 +33,8 @@ type Env struct {
 	depth     int
 	curSt     *State
 	resIdx    int
+	quantDepth int
+	bound      []string // SMT names of the variables bound by enclosing quantifiers
 }
 
 func (fr *Frame) specEnv(st, old *State) *Env {
@@ -220,6 +222,9 @@ func (env *Env) eval(e SExpr) (Val, error) {
 			binders = append(binders, fmt.Sprintf("(%s %s)", name, srt))
 			tv := Term{name, srt}
 			sub.vars[v.Name] = Val{T: tv, Typ: t}
+			if v.Type.Kind == "map" {
+				sub.vars[v.Name] = Val{T: tv} // a total SMT array (sequence / ghost map), indexed with select
+			}
 			if t != nil && !(v.Type.Kind == "name" && v.Type.Pkg == "" && v.Type.Name == "int") {
 				// "int" in a spec quantifier is a mathematical integer; sized types are range-guarded
 				if _, _, ok := intRange(t); ok {
@@ -227,13 +232,33 @@ func (env *Env) eval(e SExpr) (Val, error) {
 				}
 			}
 		}
+		if e.Seq {
+			return env.evalSeqOf(e, sub, binders)
+		}
+		sub.quantDepth++
+		sub.bound = append([]string{}, env.bound...)
+		for _, v := range e.Vars {
+			sub.bound = append(sub.bound, "q_"+v.Name)
+		}
 		body, err := sub.evalBool(e.Body)
 		if err != nil {
 			return Val{}, err
 		}
 		g := tAnd(guards...)
 		if e.Forall {
-			return Val{T: Term{fmt.Sprintf("(forall (%s) %s)", strings.Join(binders, " "), tImp(g, body).S), SBool}}, nil
+			fb := tImp(g, body).S
+			if len(e.Trig) > 0 {
+				var ps []string
+				for _, te := range e.Trig {
+					tv, err := sub.eval(te)
+					if err != nil {
+						return Val{}, err
+					}
+					ps = append(ps, tv.T.S)
+				}
+				fb = fmt.Sprintf("(! %s :pattern (%s))", fb, strings.Join(ps, " "))
+			}
+			return Val{T: Term{fmt.Sprintf("(forall (%s) %s)", strings.Join(binders, " "), fb), SBool}}, nil
 		}
 		return Val{T: Term{fmt.Sprintf("(exists (%s) %s)", strings.Join(binders, " "), tAnd(g, body).S), SBool}}, nil
 	case *SSel:
@@ -402,6 +427,13 @@ func (env *Env) lookupSource(name string) (Val, bool) {
 			switch ins := b.Instrs[i].(type) {
 			case *ssa.DebugRef:
 				if id := debugRefName(ins); id == name {
+					if !ins.IsAddr {
+						// a store to a variable that lives in a cell records the stored value, which is stale at any
+						// later point: read the cell instead
+						if a := allocOfObject(fr.fn, ins.Object()); a != nil {
+							return env.valOfSSA(a, true), true
+						}
+					}
 					return env.valOfSSA(ins.X, ins.IsAddr), true
 				}
 			case *ssa.Phi:
@@ -458,6 +490,26 @@ func fvIsAddr(fv *ssa.FreeVar) bool {
 	// a pointer-to-struct value that is only dereferenced as a whole is indistinguishable; prefer "value" for pointers to
 	// named struct types used through field selection elsewhere
 	return true
+}
+
+// allocOfObject finds the cell (Alloc) of a source variable, if the variable lives in one.
+func allocOfObject(fn *ssa.Function, o types.Object) *ssa.Alloc {
+	if o == nil || !o.Pos().IsValid() {
+		return nil
+	}
+	for _, a := range fn.Locals {
+		if a.Pos() == o.Pos() && a.Comment == o.Name() {
+			return a
+		}
+	}
+	for _, b := range fn.Blocks {
+		for _, ins := range b.Instrs {
+			if a, ok := ins.(*ssa.Alloc); ok && a.Pos() == o.Pos() && a.Comment == o.Name() {
+				return a
+			}
+		}
+	}
+	return nil
 }
 
 func debugRefName(d *ssa.DebugRef) string {
@@ -736,7 +788,7 @@ func (env *Env) evalIndex(e *SIndex) (Val, error) {
 	}
 	switch xt := x.Typ.Underlying().(type) {
 	case *types.Slice:
-		loc := te.ElemLoc(xt.Elem(), sArr(x.T), tAdd(sOff(x.T), i.T))
+		loc := te.ElemLoc(xt.Elem(), sArr(x.T), te.sIdx(sOff(x.T), i.T))
 		return Val{T: te.Load(env.st, loc), Typ: xt.Elem(), Loc: loc}, nil
 	case *types.Basic:
 		if x.T.Sort == SStr {
@@ -795,7 +847,7 @@ func (env *Env) evalSlice(e *SSliceE) (Val, error) {
 			}
 			hi = v.T
 		}
-		return Val{T: mkSlice(sArr(x.T), tAdd(sOff(x.T), lo), tSub(hi, lo), tSub(sCap(x.T), lo)), Typ: x.Typ}, nil
+		return Val{T: mkSlice(sArr(x.T), env.te().sIdx(sOff(x.T), lo), tSub(hi, lo), tSub(sCap(x.T), lo)), Typ: x.Typ}, nil
 	}
 	return Val{}, fmt.Errorf("cannot slice %s", x.T.Sort)
 }
@@ -910,7 +962,12 @@ func (env *Env) evalCall(e *SCall) (Val, error) {
 			if x.T.Sort == SSlice {
 				r = sArr(x.T)
 			}
-			return Val{T: Term{fmt.Sprintf("(not (old_alloc %s))", r.S), SBool}}, nil
+			// fresh(x): allocated after the pre-state of the enclosing contract (function entry, or the call for a callee's postcondition)
+			base := tInt(0)
+			if env.old != nil {
+				base = env.old.Get("clk", SInt)
+			}
+			return Val{T: tLt(base, Term{fmt.Sprintf("(atime %s)", r.S), SInt})}, nil
 		case "arrayOf":
 			// arrayOf(s): identity of the backing array of slice s
 			x, err := env.eval(e.Args[0])
@@ -926,7 +983,8 @@ func (env *Env) evalCall(e *SCall) (Val, error) {
 			if err != nil {
 				return Val{}, err
 			}
-			return Val{T: Term{fmt.Sprintf("(old_alloc %s)", x.T.S), SBool}}, nil
+			// allocated(x): x exists in the state the clause is evaluated in
+			return Val{T: tLe(Term{fmt.Sprintf("(atime %s)", x.T.S), SInt}, env.st.Get("clk", SInt))}, nil
 		case "nolocks":
 			// nolocks(): this goroutine holds no mutex (ghost lock state)
 			w := env.st.Get("ghost_LockW", arraySort(SInt, SBool))
@@ -1136,6 +1194,49 @@ func (env *Env) callPureGo(f *types.Func, recv *Val, argsE []SExpr) (Val, error)
 		return Val{}, fmt.Errorf("pure call %s has no result %d", key, ri)
 	}
 	return Val{T: fr.pureApp(env.st, c, ri, sig, recvT, args), Typ: sig.Results().At(ri).Type()}, nil
+}
+
+// evalSeqOf evaluates "seqof k int :: e": a fresh array constant q with the definitional assumption forall k :: q[k] == e.
+// The extension is conservative (such an array always exists), so the assumption cannot make a path vacuous.
+func (env *Env) evalSeqOf(e *SQuant, sub *Env, binders []string) (Val, error) {
+	if len(e.Vars) != 1 {
+		return Val{}, fmt.Errorf("seqof binds exactly one index variable")
+	}
+	for _, b := range env.bound {
+		if b == "q_"+e.Vars[0].Name {
+			return Val{}, fmt.Errorf("seqof index %s shadows an enclosing bound variable", e.Vars[0].Name)
+		}
+	}
+	sub.quantDepth++
+	body, err := sub.eval(e.Body)
+	if err != nil {
+		return Val{}, err
+	}
+	if len(env.bound) > 0 {
+		// a sequence is a constant of the verification condition: it may sit under a quantifier only if it is closed
+		toks := map[string]bool{}
+		for _, t := range smtTokens(body.T.S) {
+			toks[t] = true
+		}
+		for _, b := range env.bound {
+			if toks[b] {
+				return Val{}, fmt.Errorf("seqof under a quantifier mentions the bound variable %s", strings.TrimPrefix(b, "q_"))
+			}
+		}
+	}
+	vc := env.fr.vc
+	key := body.T.Sort + "|" + body.T.S
+	if vc.seqCache == nil {
+		vc.seqCache = map[string]Term{}
+	}
+	if q, ok := vc.seqCache[key]; ok {
+		return Val{T: q}, nil
+	}
+	q := vc.fresh("seq", arraySort(SInt, body.T.Sort))
+	sel := tSelect(q, Term{"q_" + e.Vars[0].Name, SInt})
+	vc.assume(Term{fmt.Sprintf("(forall (%s) (! (= %s %s) :pattern (%s)))", binders[0], sel.S, body.T.S, sel.S), SBool})
+	vc.seqCache[key] = q
+	return Val{T: q}, nil
 }
 
 // applySpecFunc expands a defined spec function or applies an uninterpreted one.
